@@ -184,6 +184,9 @@ def expand(model, ref, depth=2, exclude=()):
 # ---------------------------------------------------------------------------------------------- copy propagation
 
 _PURE_CALLS = {"len", "range", "min", "max", "abs"}
+# constructors of immutable value expressions (safe to treat as sub-expressions); other capitalised callees create objects
+# with an identity (Signal, Module, Memory, processes, collectors, ...) and stay named locals
+_VALUE_CTORS = {"Cat", "Const", "C", "Mux", "Shape", "Slice", "Part", "Concat", "Operator", "Field", "Repl", "Period"}
 
 
 def _pure(e):
@@ -286,7 +289,8 @@ def propagate_locals(fn):
             if in_loop and any(id(u) not in later for u in loads.get(name, [])):
                 continue
             # an object creation (Signal(..), Module(), ..) is an identity, not a sub-expression: it stays a named local
-            creates = isinstance(asg.value, ast.Call) and (dotted(asg.value.func) or "x").split(".")[-1][:1].isupper()
+            callee = (dotted(asg.value.func) or "x").split(".")[-1] if isinstance(asg.value, ast.Call) else "x"
+            creates = callee[:1].isupper() and callee not in _VALUE_CTORS
             single_use = len(uses) == 1 and not creates and not any(
                 isinstance(x, (ast.Yield, ast.YieldFrom, ast.Await, ast.NamedExpr)) for x in ast.walk(asg.value))
             if not (_pure(asg.value) or single_use):
